@@ -53,6 +53,9 @@ let parse_aop toks = match toks with
   | ["swap"; i; j] -> ASwap (n_ i, n_ j)
   | ["appe"; i; k] -> AAppendOwn (n_ i, n_ k)
   | ["rsze"; i; n; k] -> AResizeOwn (n_ i, z_ n, n_ k)
+  | ["appo"; i; off; n] -> AAppendBufOwn (n_ i, n_ off, n_ n)
+  | ["eq"; i; j] -> AEq (n_ i, n_ j)
+  | ["ne"; i; j] -> ANe (n_ i, n_ j)
   | _ -> failwith ("bad array op: " ^ String.concat " " toks)
 
 (* kind rec: the element is built by an n-argument constructor, `app i v` is the 1-argument form *)
@@ -95,7 +98,18 @@ let res_str (r : res) (seqs : z list list) (var : int) = match r with
 let var_of toks = match toks with _ :: i :: _ -> int_of_string i | _ -> 0
 let ints l = String.concat "" (List.map (fun s -> string_of_int (int_of_nat s) ^ " ") l)
 
-type mstate = SL of lworld | SP of lworld | SA of aworld
+(* Array: the storage-level machine (sstep: allocations, constructed / raw cells, checked access) is what is run and
+   printed; the value-level model (astep) runs beside it and must agree after every operation (theorem
+   arraymem_step_safe_refines says it always does, and that the machine never reports an access error) *)
+type mstate = SL of lworld | SP of lworld | SA of sworld * aworld
+
+let aerr_str = function
+  | ENull -> "segv" | EFreed -> "uaf" | EOob -> "oob" | ERaw -> "ub" | ETwice -> "ub"
+  | ELeak -> "leak" | EDblFree -> "dblfree" | EFuel -> "timeout"
+
+let marr_eq (a : marr) (b : marr) =
+  List.length a.items = List.length b.items && List.for_all2 (fun x y -> int_of_z x = int_of_z y) a.items b.items
+  && dec_of_z a.cap = dec_of_z b.cap && a.allocated = b.allocated
 
 let () =
   let mode = Sys.argv.(1) and file = Sys.argv.(2) in
@@ -108,12 +122,12 @@ let () =
          match !cont with
          | "list" -> SL (linit (nat_of_int nv))
          | "plist" -> SP (linit (nat_of_int nv))
-         | _ -> SA (ainit (nat_of_int nv)))
+         | _ -> SA (swinit (nat_of_int nv), ainit (nat_of_int nv)))
       (fun st _ toks ->
          let node_line letter w r =
            let seqs = List.map (fun l -> List.map fst l.nodes) w in
            let pub = String.concat " " (List.mapi (fun i l ->
-               dump_var letter i (int_of_nat l.msize) (List.map fst l.nodes) "" " rev ok") w) in
+               dump_var letter i (int_of_nat l.msize) (List.map fst l.nodes) "" " rev ok acc ok") w) in
            let inn = String.concat " " (List.mapi (fun i l ->
                Printf.sprintf "%s%d s %s/ %s/ %d" letter i (ints (List.map snd l.nodes)) (ints l.free) (int_of_nat l.nblocks)) w) in
            let rs = match r with
@@ -124,14 +138,26 @@ let () =
          match st with
          | SL w -> let (w', r) = lstep !key w (parse_lop toks) in node_line "L" w' r; SL w'
          | SP w -> let (w', r) = pstep w (parse_pop !isrec toks) in node_line "P" w' r; SP w'
-         | SA w ->
-             let (w', r) = astep w (parse_aop toks) in
-             let seqs = List.map (fun a -> a.items) w' in
-             let pub = String.concat " " (List.mapi (fun i a ->
-                 dump_var "A" i (List.length a.items) a.items (dec_of_z a.cap) "") w') in
-             let inn = String.concat " " (List.mapi (fun i a -> Printf.sprintf "A%d a %d" i (if a.allocated then 1 else 0)) w') in
-             emit (Printf.sprintf "%s | %s | %s" (res_str (aobs_res r) seqs (var_of toks)) pub inn);
-             SA w')
+         | SA (sw, w) ->
+             let op = parse_aop toks in
+             let (w', r) = astep w op in
+             (match sstep sw op with
+              | SErr e -> emit ("! " ^ aerr_str e); SA (sw, w')
+              | SOk (sw', r') ->
+                  let m = sabs sw' in
+                  let nalloc = List.length (List.filter (fun (a : marr) -> a.allocated) m) in
+                  if not (List.length m = List.length w' && List.for_all2 marr_eq m w' && r = r') then
+                    emit "! model-mismatch (storage machine vs value-level model)"
+                  else if int_of_nat (live_blocks sw'.sheap) <> nalloc then
+                    emit "! model-leak (live allocations vs allocated variables)"
+                  else begin
+                    let seqs = List.map (fun (a : marr) -> a.items) m in
+                    let pub = String.concat " " (List.mapi (fun i (a : marr) ->
+                        dump_var "A" i (List.length a.items) a.items (dec_of_z a.cap) " acc ok") m) in
+                    let inn = String.concat " " (List.mapi (fun i (a : marr) -> Printf.sprintf "A%d a %d" i (if a.allocated then 1 else 0)) m) in
+                    emit (Printf.sprintf "%s | %s | %s" (res_str (aobs_res r') seqs (var_of toks)) pub inn)
+                  end;
+                  SA (sw', w')))
       (fun _ -> emit "end live 0")
   else
     run_cases file
@@ -144,7 +170,7 @@ let () =
            | "plist" -> pspec s (parse_pop !isrec toks)
            | _ -> aspec s (parse_aop toks) in
          let letter, cap, tail = match !cont with
-           | "list" -> "L", "", " rev ok" | "plist" -> "P", "", " rev ok" | _ -> "A", "?", "" in
+           | "list" -> "L", "", " rev ok acc ok" | "plist" -> "P", "", " rev ok acc ok" | _ -> "A", "?", " acc ok" in
          let pub = String.concat " " (List.mapi (fun i l -> dump_var letter i (List.length l) l cap tail) s') in
          emit (Printf.sprintf "%s | %s" (res_str r s' (var_of toks)) pub);
          s')
